@@ -85,10 +85,13 @@ async fn resolve_and_build_response(args: ListenArgs, query: Message) -> Message
                 .with_label_values(question_labels)
                 .start_timer();
 
-            // lock zones here, rather than where they're used in the resolver,
+            // get the zones here, rather than where they're used in the resolver,
             // so that this whole request sees a consistent version of the zones
-            // even if they get updated in the middle of processing.
-            let zones = args.zones_lock.read().await;
+            // even if they get updated in the middle of processing.  The lock is
+            // only held to take a reference to the current version, not while
+            // resolving: a reload waiting for a slow upstream query to finish
+            // would hold up every request arriving after it.
+            let zones = args.zones_lock.read().await.clone();
 
             let (metrics, answer) = resolve(
                 query.header.recursion_desired && response.header.recursion_available,
@@ -327,7 +330,7 @@ struct ListenArgs {
     protocol_mode: ProtocolMode,
     upstream_dns_port: u16,
     forward_address: Option<SocketAddr>,
-    zones_lock: Arc<RwLock<Zones>>,
+    zones_lock: Arc<RwLock<Arc<Zones>>>,
     cache: SharedCache,
 }
 
@@ -343,7 +346,7 @@ async fn prune_cache_task(cache: SharedCache) {
 }
 
 /// Reload hosts and zones, and replace the value in the `RwLock`.
-async fn reload_task(zones_lock: Arc<RwLock<Zones>>, args: Args) {
+async fn reload_task(zones_lock: Arc<RwLock<Arc<Zones>>>, args: Args) {
     let mut stream = match signal(SignalKind::user_defined1()) {
         Ok(s) => s,
         Err(error) => {
@@ -367,7 +370,7 @@ async fn reload_task(zones_lock: Arc<RwLock<Zones>>, args: Args) {
         .await
         {
             let mut lock = zones_lock.write().await;
-            *lock = zones;
+            *lock = Arc::new(zones);
             tracing::error_span!("SIGUSR1").in_scope(
                 || tracing::info!(duration_seconds = %start.elapsed().as_secs_f64(), "done - success"),
             );
@@ -553,7 +556,7 @@ async fn main() {
         protocol_mode: args.protocol_mode,
         upstream_dns_port: args.upstream_dns_port,
         forward_address: args.forward_address,
-        zones_lock: Arc::new(RwLock::new(zones)),
+        zones_lock: Arc::new(RwLock::new(Arc::new(zones))),
         cache: SharedCache::with_desired_size(std::cmp::max(1, args.cache_size)),
     };
 
@@ -593,7 +596,7 @@ pub mod verif {
         pub udp_task: tokio::task::JoinHandle<()>,
         pub reload_task: tokio::task::JoinHandle<()>,
         pub prune_task: tokio::task::JoinHandle<()>,
-        pub zones_lock: Arc<RwLock<Zones>>,
+        pub zones_lock: Arc<RwLock<Arc<Zones>>>,
         pub cache: SharedCache,
     }
 
@@ -629,7 +632,7 @@ pub mod verif {
             protocol_mode: args.protocol_mode,
             upstream_dns_port: args.upstream_dns_port,
             forward_address: args.forward_address,
-            zones_lock: Arc::new(RwLock::new(zones)),
+            zones_lock: Arc::new(RwLock::new(Arc::new(zones))),
             cache: SharedCache::with_desired_size(std::cmp::max(1, args.cache_size)),
         };
 
